@@ -25,6 +25,11 @@ from typing import Dict, Iterable, List, Optional, Set, Tuple
 from .model import AnchorMissing, ClassInfo, Repo, SourceFile, norm
 
 
+# public functions that rules look up by name (their calls are facts the rules read): never read through as "small helpers"
+ANCHOR_FUNCTIONS = {"convert_value", "read_sunvox_file", "write_chunk", "chunks", "raise_or_warn_controller_value_validation",
+                    "override_raise_controller_value_errors", "enumname"}
+
+
 class CannotInline(Exception):
     pass
 
@@ -290,6 +295,8 @@ class Inliner:
             elif f.id not in self.exclude and self.sf is not None:
                 # a small public helper defined in this module (`encode_midi_in(always, channel)`): at most three statements, straight-line
                 own = self._module_functions().get(f.id)
+                if f.id in ANCHOR_FUNCTIONS:
+                    return None            # a function the rules analyse under its own name stays a call
                 if own is not None and not own.decorator_list and len(_body(own)) <= 5 and not _is_generator(own) \
                         and not any(isinstance(n, (ast.With, ast.Try, ast.For, ast.While, ast.Global, ast.Nonlocal)) for n in ast.walk(own)):
                     return own, False
@@ -702,6 +709,21 @@ class Inliner:
                 ast.copy_location(loop, st)
                 ast.fix_missing_locations(loop)
                 st = loop
+        # X.extend(E for x in XS [if c]): one append per element of XS
+        if isinstance(st, ast.Expr) and isinstance(st.value, ast.Call) and isinstance(st.value.func, ast.Attribute) and st.value.func.attr == "extend" \
+                and len(st.value.args) == 1 and not st.value.keywords and isinstance(st.value.args[0], (ast.GeneratorExp, ast.ListComp)) \
+                and isinstance(st.value.func.value, (ast.Name, ast.Attribute)) and len(st.value.args[0].generators) == 1 \
+                and not st.value.args[0].generators[0].is_async and not isinstance(st.value.args[0].elt, ast.Constant):
+            comp = st.value.args[0]
+            g0 = comp.generators[0]
+            app = ast.Expr(value=ast.Call(func=ast.Attribute(value=copy.deepcopy(st.value.func.value), attr="append", ctx=ast.Load()), args=[comp.elt], keywords=[]))
+            body2: List[ast.stmt] = [app]
+            for cond in reversed(g0.ifs):
+                body2 = [ast.If(test=cond, body=body2, orelse=[])]
+            loop = ast.For(target=g0.target, iter=g0.iter, body=body2, orelse=[])
+            ast.copy_location(loop, st)
+            ast.fix_missing_locations(loop)
+            return self._stmt(loop, depth)
         # D.update((k, v) for x in XS [if c]): one item store per element of XS
         if isinstance(st, ast.Expr) and isinstance(st.value, ast.Call) and isinstance(st.value.func, ast.Attribute) and st.value.func.attr == "update" \
                 and len(st.value.args) == 1 and not st.value.keywords and isinstance(st.value.args[0], (ast.GeneratorExp, ast.ListComp)) \
@@ -1168,6 +1190,11 @@ def as_expression(fn: ast.FunctionDef) -> Optional[ast.expr]:
                 continue
             if isinstance(st, ast.Assign) and len(st.targets) == 1 and isinstance(st.targets[0], ast.Name):
                 e2[st.targets[0].id] = subst(st.value, e2)
+                continue
+            if isinstance(st, ast.Assign) and len(st.targets) == 1 and isinstance(st.targets[0], (ast.Tuple, ast.List)) \
+                    and len(st.targets[0].elts) == 1 and isinstance(st.targets[0].elts[0], ast.Name) and isinstance(st.value, (ast.Name, ast.Call)):
+                # (x,) = xs   →   x = xs[0]
+                e2[st.targets[0].elts[0].id] = ast.Subscript(value=subst(st.value, e2), slice=ast.Constant(value=0), ctx=ast.Load())
                 continue
             return None
         return e2
